@@ -85,15 +85,17 @@ func (o *ObsC01) check(x *Exec, quiescent bool) *vcore.Failure {
 	return nil
 }
 
-func (o *ObsC01) AfterOp(x *Exec, i int, op Op, res *OpResult) *vcore.Failure { return o.check(x, true) }
-func (o *ObsC01) AfterStep(x *Exec) *vcore.Failure                             { return o.check(x, false) }
+func (o *ObsC01) AfterOp(x *Exec, i int, op Op, res *OpResult) *vcore.Failure {
+	return o.check(x, true)
+}
+func (o *ObsC01) AfterStep(x *Exec) *vcore.Failure { return o.check(x, false) }
 
 // ---------- C04: a live pod's IP is never released, re-keyed or handed on ----------
 
 type ObsC04 struct {
-	cloudSeen  int
-	Dangerous  bool // an unbind/resync/release/reload ran while a same-named replacement pod was live and bound
-	exempt     map[string]bool // pod uid + ip that a reload legitimately took away (configuration without the IP)
+	cloudSeen int
+	Dangerous bool            // an unbind/resync/release/reload ran while a same-named replacement pod was live and bound
+	exempt    map[string]bool // pod uid + ip that a reload legitimately took away (configuration without the IP)
 }
 
 func (o *ObsC04) check(x *Exec) *vcore.Failure {
